@@ -450,4 +450,39 @@ Proof.
   destruct (nth_error progs k) as [d|] eqn:Ek; [|discriminate]. cbn [option_map] in Hn. unfold pat_ent in Hn. injection Hn as Hpid Hrq.
   exists k, d. split; [exact Ek|]. split; [exact Hpid|]. rewrite Hf, <- Hrq. reflexivity.
 Qed.
+
+(* C10 end to end: a packet on a table PID that starts a repetition (same version as remembered) — or continues one —
+   reaches no table processor, queues nothing, requests nothing: the table is as before except that the PID's own entry
+   holds the chain that now skips the rest of that section; every other handler (elementary-stream consumers with whatever
+   PES packet they are in the middle of) is untouched *)
+Lemma repetition_start_packet fs cx i pk P s (c : chain pmt_state) poff next v :
+  cx_changes cx = [] -> pkt_pid pk = Ok P -> filters_get fs P = Some (HPmt s c) -> unflagged pk ->
+  pkt_payload pk = Ok (Some (poff, 0 :: next)) -> pkt_payload_unit_start_indicator pk = Ok true ->
+  accepted_start (hdr_of next) next -> tsh_version (skipn 3 next) = Ok v -> dd_last_version c = Some v ->
+  spec_packet' fs cx (i, pk) = Ok (set_slot fs P (Some (HPmt s (skipped pmt_state c v))), cx, [EvPacket s i []]).
+Proof.
+  intros Hc Hp Hg (Ht & tsc & Hs & Hsc) Hpl Hpusi Ha Hv Hl.
+  cbn [spec_packet]. rewrite Hp. cbn [bind].
+  replace (filters_contains fs P) with true by (symmetry; apply contains_get; eauto). cbn [bind]. rewrite Hg, Ht. cbn [bind].
+  rewrite Hs. cbn [bind]. rewrite Hsc. cbn [handler_consume].
+  assert (H3 : (3 <= length next)%nat) by (destruct Ha as (_ & H8 & _); lia).
+  rewrite (t_consume_start0 false pmt_state ctx event (pmt_section policy deep) c cx pk poff next Hpl Hpusi H3).
+  rewrite (c10_skip_start false pmt_state ctx event (pmt_section policy deep) c cx (hdr_of next) next (poff + 1 + 0) v Ha Hl Hv).
+  cbn [bind fst snd]. rewrite Hc. cbn [apply_changes bind]. rewrite clear_changes_id by assumption. reflexivity.
+Qed.
+
+Lemma repetition_continuation_packet fs cx i pk P s (c : chain pmt_state) poff payload :
+  cx_changes cx = [] -> pkt_pid pk = Ok P -> filters_get fs P = Some (HPmt s c) -> unflagged pk ->
+  pkt_payload pk = Ok (Some (poff, payload)) -> pkt_payload_unit_start_indicator pk = Ok false ->
+  sp_ignore_rest c = false -> dd_ignore_rest c = true ->
+  spec_packet' fs cx (i, pk) = Ok (set_slot fs P (Some (HPmt s c)), cx, [EvPacket s i []]).
+Proof.
+  intros Hc Hp Hg (Ht & tsc & Hs & Hsc) Hpl Hpusi Hi Hd.
+  cbn [spec_packet]. rewrite Hp. cbn [bind].
+  replace (filters_contains fs P) with true by (symmetry; apply contains_get; eauto). cbn [bind]. rewrite Hg, Ht. cbn [bind].
+  rewrite Hs. cbn [bind]. rewrite Hsc. cbn [handler_consume].
+  unfold spc_consume. rewrite Hpl. cbn [bind]. rewrite Hpusi. cbn [bind].
+  rewrite (c10_skip_continue false pmt_state ctx event (pmt_section policy deep) c cx payload Hi Hd).
+  cbn [bind fst snd]. rewrite Hc. cbn [apply_changes bind]. rewrite clear_changes_id by assumption. reflexivity.
+Qed.
 End EndToEnd.
